@@ -1,18 +1,17 @@
-//! C10 scenario (Semphore): 2-4 actors, threads and coroutines mixed, each running a seeded sequence of
-//! wait / wait_timeout / try_wait / post / get_value on ONE real may::sync::Semphore under the baton
-//! scheduler, timeouts racing posts at equal virtual times, optional cancellation of waiting coroutines.
+//! C10 scenario (SyncFlag): 2-4 actors, threads and coroutines mixed, each running a seeded sequence of
+//! wait / wait_timeout / is_fired / fire on ONE real may::sync::SyncFlag under the baton scheduler,
+//! optional cancellation of waiting coroutines.
 //!
 //! Oracles on the implementation (independent of the Coq model):
-//!  * successes <= init + posts at every moment (own counters: a post is counted before it is called,
-//!    a success after the call returned);
-//!  * get_value() <= init + posts - successes at every call, and == once everything has returned;
+//!  * no spurious fire: is_fired() / wait() / wait_timeout() answer true only after some fire() was called;
+//!  * latch: once a fire() has returned, or an is_fired()/wait has answered true, every later is_fired() answers
+//!    true and every wait / wait_timeout that starts afterwards returns true;
 //!  * wait_timeout(d) never returns false before call time + d (virtual clock);
-//!  * nobody stays parked while the value is positive / every call returns once permits suffice
-//!    (the main actor watches progress; plus the harness' own deadlock / livelock detector).
+//!  * every untimed wait returns once fire() has been called (main fires when everybody is stuck; a waiter
+//!    that stays parked after that is a lost wake-up; plus the harness' own deadlock / livelock detector).
 //!
-//! Trace records for the acceptor (kind, obj, val): wait.call(flags: 1 = timed, 2 = coroutine; dur ns)
-//! wait.ret(0, result) try.call try.ret(0, result) post.call post.ret getv.call getv.ret(0, value),
-//! sem.new(0, init) first.
+//! Trace records for the acceptor: flag.new, wait.call(flags: 1 = timed, 2 = coroutine; dur) wait.ret(0,res)
+//! isf.call isf.ret(0,res) fire.call fire.ret.
 use may::verif::Hooks;
 use mayv::*;
 use std::alloc::{GlobalAlloc, Layout, System};
@@ -20,8 +19,7 @@ use std::sync::atomic::{AtomicBool, AtomicI64, AtomicU64, Ordering::SeqCst};
 use std::sync::Arc;
 use std::time::Duration;
 
-/// never reuse an address: the virtual ThreadPark token of the harness is keyed by address, and the
-/// trace normaliser numbers objects by address (a recycled SyncBlocker would alias an old one)
+/// never reuse an address (see s_sem.rs)
 struct Leak;
 unsafe impl GlobalAlloc for Leak {
     unsafe fn alloc(&self, l: Layout) -> *mut u8 {
@@ -51,47 +49,46 @@ const DURS: [u64; 6] = [0, 1, 999_999, 1_000_000, 1_500_000, 10_000_000];
 const GAPS: [u64; 12] = [0, 0, 0, 0, 0, 0, 0, 1, 999_999, 1_000_000, 2_000_000, 10_000_000];
 
 struct Sh {
-    sem: may::sync::Semphore,
-    init: i64,
-    posts: AtomicI64,    // posts started
-    succ: AtomicI64,     // successful waits that have returned
-    in_wait: AtomicI64,  // actors inside an untimed wait()
-    deadline: AtomicU64, // virtual deadline of the most recent wait_timeout
-    done: AtomicU64,     // actors that finished (or were cancelled)
-    progress: AtomicU64, // completed calls
+    flag: may::sync::SyncFlag,
+    fire_called: AtomicBool, // some fire() has been entered
+    latched: AtomicBool,     // a fire() has returned, or somebody was told "fired"
+    in_wait: AtomicI64,      // actors inside an untimed wait()
+    done: AtomicU64,
+    progress: AtomicU64,
+    deadline: AtomicU64,
     cancel_seen: AtomicBool,
 }
 
 impl Sh {
-    fn post(&self, c: &Ctx) {
-        self.posts.fetch_add(1, SeqCst);
-        c.log("post.call", 0, 0, None);
-        self.sem.post();
-        c.log("post.ret", 0, 0, None);
+    fn fire(&self, c: &Ctx) {
+        self.fire_called.store(true, SeqCst);
+        c.log("fire.call", 0, 0, None);
+        self.flag.fire();
+        c.log("fire.ret", 0, 0, None);
+        self.latched.store(true, SeqCst);
         self.progress.fetch_add(1, SeqCst);
     }
-    fn success(&self, c: &Ctx, what: &str) {
-        let s = self.succ.fetch_add(1, SeqCst) + 1;
-        let p = self.posts.load(SeqCst);
-        if s > self.init + p {
-            c.fail(format!("permit duplicated: {s} successful waits with init {} and {p} posts ({what})", self.init));
+    fn told_true(&self, c: &Ctx, what: &str) {
+        if !self.fire_called.load(SeqCst) {
+            c.fail(format!("spurious fire: {what} answered true although fire() was never called"));
         }
+        self.latched.store(true, SeqCst);
     }
-    fn get_value(&self, c: &Ctx) -> i64 {
-        let s0 = self.succ.load(SeqCst);
-        c.log("getv.call", 0, 0, None);
-        let v = self.sem.get_value() as i64;
-        c.log("getv.ret", 0, v as u64, None);
-        let p1 = self.posts.load(SeqCst);
-        if v > self.init + p1 - s0 {
-            c.fail(format!("get_value {v} exceeds init {} + posts {p1} - successes {s0}", self.init));
+    fn is_fired(&self, c: &Ctx) -> bool {
+        let before = self.latched.load(SeqCst);
+        c.log("isf.call", 0, 0, None);
+        let r = self.flag.is_fired();
+        c.log("isf.ret", 0, r as u64, None);
+        if r {
+            self.told_true(c, "is_fired");
+        } else if before {
+            c.fail("latch broken: is_fired() answered false after the flag was known to be fired".into());
         }
         self.progress.fetch_add(1, SeqCst);
-        v
+        r
     }
 }
 
-/// marks the actor finished also when a cancel panic unwinds it
 /// virtual condition keys of the harness on which main waits for the actors (PCT runs: no polling)
 const DONE_KEY: usize = 0x6000_0000;
 
@@ -131,12 +128,12 @@ fn actor(sh: Arc<Sh>, idx: usize, nops: u64, mix: String, seed: u64) {
         if gap > 0 {
             c.sleep_ns(gap);
         }
-        // weights: wait, wait_timeout, try_wait, post, get_value, post at the deadline of the latest wait_timeout
-        let mut w: [u64; 6] = match mix.trim_end_matches("-nowait") {
-            "timed" => [0, 6, 1, 3, 1, 3],
-            "wait" => [5, 1, 1, 6, 1, 0],
-            "try" => [1, 2, 5, 5, 2, 0],
-            _ => [2, 4, 2, 4, 1, 1],
+        // weights: wait, wait_timeout, is_fired, fire, fire at the deadline of the latest wait_timeout
+        let mut w: [u64; 5] = match mix.trim_end_matches("-nowait") {
+            "timed" => [0, 7, 2, 1, 2],
+            "wait" => [5, 2, 2, 2, 0],
+            "late" => [3, 5, 3, 0, 0],
+            _ => [2, 5, 3, 1, 1],
         };
         if mix.ends_with("-nowait") {
             w[1] += w[0];
@@ -156,48 +153,44 @@ fn actor(sh: Arc<Sh>, idx: usize, nops: u64, mix: String, seed: u64) {
                 fin.in_untimed = true;
                 sh.in_wait.fetch_add(1, SeqCst);
                 c.log("wait.call", if is_co { 2 } else { 0 }, 0, None);
-                sh.sem.wait();
+                sh.flag.wait();
                 c.log("wait.ret", 0, 1, None);
                 sh.in_wait.fetch_sub(1, SeqCst);
                 fin.in_untimed = false;
-                sh.success(&c, "wait");
+                sh.told_true(&c, "wait");
                 sh.progress.fetch_add(1, SeqCst);
             }
             1 => {
                 let d = DURS[(next() % DURS.len() as u64) as usize];
+                let before = sh.latched.load(SeqCst);
                 let t0 = c.now();
-                // a coroutine's timeout is kept in whole milliseconds, rounded up
                 sh.deadline.store(t0 + if is_co { d.div_ceil(1_000_000) * 1_000_000 } else { d }, SeqCst);
                 c.log("wait.call", 1 + if is_co { 2 } else { 0 }, d, None);
-                let ok = sh.sem.wait_timeout(Duration::from_nanos(d));
+                let ok = sh.flag.wait_timeout(Duration::from_nanos(d));
                 c.log("wait.ret", 0, ok as u64, None);
                 let t1 = c.now();
                 if ok {
-                    sh.success(&c, "wait_timeout");
-                } else if t1 < t0 + d {
-                    c.fail(format!("wait_timeout({d} ns) returned false after only {} ns ({})", t1 - t0, if is_co { "coroutine" } else { "thread" }));
+                    sh.told_true(&c, "wait_timeout");
+                } else {
+                    if before {
+                        c.fail(format!("latch broken: wait_timeout({d} ns) returned false although the flag was fired before the call"));
+                    }
+                    if t1 < t0 + d {
+                        c.fail(format!("wait_timeout({d} ns) returned false after only {} ns ({})", t1 - t0, if is_co { "coroutine" } else { "thread" }));
+                    }
                 }
                 sh.progress.fetch_add(1, SeqCst);
             }
             2 => {
-                c.log("try.call", 0, 0, None);
-                let ok = sh.sem.try_wait();
-                c.log("try.ret", 0, ok as u64, None);
-                if ok {
-                    sh.success(&c, "try_wait");
-                }
-                sh.progress.fetch_add(1, SeqCst);
+                sh.is_fired(&c);
             }
-            3 => sh.post(&c),
-            4 => {
-                sh.get_value(&c);
-            }
+            3 => sh.fire(&c),
             _ => {
                 let (dl, now) = (sh.deadline.load(SeqCst), c.now());
                 if dl > now {
                     c.sleep_ns(dl - now);
                 }
-                sh.post(&c);
+                sh.fire(&c);
             }
         }
     }
@@ -207,10 +200,9 @@ fn actor(sh: Arc<Sh>, idx: usize, nops: u64, mix: String, seed: u64) {
 fn main() {
     let mut cfg = Config::from_env();
     if envs("MAYV_SCHED", "narrow") == "narrow" {
-        cfg.sched_files = vec!["src/sync/semphore.rs", "src/sync/blocking.rs", "src/park.rs", "src/cancel.rs", "src/bin/s_sem.rs"];
+        cfg.sched_files = vec!["src/sync/sync_flag.rs", "src/sync/blocking.rs", "src/park.rs", "src/cancel.rs", "src/bin/s_flag.rs"];
     }
     let stalls = std::env::var("MAYV_STALL").is_ok();
-    let init = envn("MAYV_INIT", 0) as i64;
     let nact = envn("MAYV_ACTORS", 3) as usize;
     let nops = envn("MAYV_OPS", 3);
     let ctx_sel = envs("MAYV_CTX", "mix");
@@ -223,17 +215,16 @@ fn main() {
     let mix = if pct { format!("{mix}-nowait") } else { mix };
     run(cfg, move |ctx| {
         let sh = Arc::new(Sh {
-            sem: may::sync::Semphore::new(init as usize),
-            init,
-            posts: AtomicI64::new(0),
-            succ: AtomicI64::new(0),
+            flag: may::sync::SyncFlag::new(),
+            fire_called: AtomicBool::new(false),
+            latched: AtomicBool::new(false),
             in_wait: AtomicI64::new(0),
-            deadline: AtomicU64::new(0),
             done: AtomicU64::new(0),
             progress: AtomicU64::new(0),
+            deadline: AtomicU64::new(0),
             cancel_seen: AtomicBool::new(false),
         });
-        ctx.log("sem.new", 0, init as u64, None);
+        ctx.log("flag.new", 0, 0, None);
         let mut threads = vec![];
         let mut cos = vec![];
         for a in 0..nact {
@@ -250,7 +241,6 @@ fn main() {
                 threads.push(ctx.spawn(&format!("a{a}"), move || actor(sh2, a, nops, mix2, seed)));
             }
         }
-        // cancellers: each cancels one coroutine actor at a virtual time taken from the gap set
         let mut cancellers = vec![];
         for k in 0..ncancel.min(cos.len()) {
             let co = cos[k].coroutine().clone();
@@ -261,15 +251,14 @@ fn main() {
                 if dt > 0 {
                     c.sleep_ns(dt);
                 }
-                // land somewhere inside what the others are doing right now
                 for _ in 0..spins {
                     c.point();
                 }
                 unsafe { co.cancel() };
             }));
         }
-        // main watches progress; when everybody still running sits in an untimed wait it supplies permits,
-        // and a waiter that stays parked although the value is positive is a lost wake-up
+        // main watches progress: when everybody still running sits in an untimed wait it fires;
+        // a waiter that stays parked after a fire() has returned is a lost wake-up
         if pct {
             for a in 0..nact {
                 ctx.ctl.block(DONE_KEY + a, None);
@@ -294,26 +283,16 @@ fn main() {
                 ctx.fail(format!("hang: no call returned for {quiet_limit} ms of virtual time although nobody is in an untimed wait"));
                 break;
             }
-            let v = sh.get_value(ctx);
-            if v > 0 {
-                ctx.fail(format!("hang: a waiter stays parked although the semaphore value is {v}"));
+            if sh.latched.load(SeqCst) {
+                ctx.fail("hang: a waiter stays parked although fire() has returned".into());
                 break;
             }
             rescues += 1;
-            if rescues > nact as u64 * nops + 2 {
-                ctx.fail("hang: waiters stay parked whatever is posted".into());
-                break;
-            }
-            sh.post(ctx);
+            sh.fire(ctx);
         }
         let failed = sh.done.load(SeqCst) < nact as u64;
-        if !failed {
-            // everything has returned: the value is exact
-            let v = sh.get_value(ctx);
-            let want = sh.init + sh.posts.load(SeqCst) - sh.succ.load(SeqCst);
-            if want < 0 || v != want {
-                ctx.fail(format!("value at rest {v}, expected init {} + posts {} - successes {} = {want}", sh.init, sh.posts.load(SeqCst), sh.succ.load(SeqCst)));
-            }
+        if !failed && sh.latched.load(SeqCst) {
+            sh.is_fired(ctx);
         }
         ctx.record(false);
         if failed {
@@ -328,12 +307,6 @@ fn main() {
         for h in cos {
             let _ = h.join();
         }
-        println!(
-            "posts={} successes={} cancelled={} rescues={rescues} vtime={}",
-            sh.posts.load(SeqCst),
-            sh.succ.load(SeqCst),
-            sh.cancel_seen.load(SeqCst),
-            ctx.now()
-        );
+        println!("fired={} cancelled={} rescues={rescues} vtime={}", sh.latched.load(SeqCst), sh.cancel_seen.load(SeqCst), ctx.now());
     })
 }
